@@ -15,7 +15,7 @@ from .logic import Unsupported
 from . import solve
 
 HERE = os.path.dirname(os.path.dirname(os.path.abspath(__file__)))
-CONTRACT_MODULES = ['contracts.c_graph', 'contracts.c_sanitize']
+CONTRACT_MODULES = ['contracts.c_graph', 'contracts.c_sanitize', 'contracts.c_job', 'contracts.env_asyncio', 'contracts.c_window', 'contracts.c_run']
 
 
 def load_contracts():
@@ -54,6 +54,14 @@ def generate(qualnames, repo=None):
         fr.info = info
         t = time.time()
         try:
+            if getattr(c, 'syntactic', None) is not None:
+                import z3
+                from .symexec import Obligation
+                for label, ok, why in c.syntactic(info):
+                    fr.obligations.append(Obligation('%s/syntactic[%s]#0' % (qn, label), [], z3.BoolVal(bool(ok)),
+                                                     qn, label, 'syntactic', c.label_props.get(label, c.props),
+                                                     [why] if not ok else [], info.lineno))
+                continue
             ex = Exec(info, c, reg, repo)
             fr.obligations = ex.run()
             fr.covers = ex.covers
